@@ -64,6 +64,14 @@ func c17Strs(r *vf.Rand, pool []string, minN int) []any {
 }
 
 func c17Endpoint(r *vf.Rand, u string) m {
+	// one endpoint in eight answers 500 / 401 (the error branches of the mechanisms are executed too)
+	switch r.Intn(16) {
+	case 0:
+		u += "?fail=500"
+	case 1:
+		u += "?fail=401"
+	}
+
 	e := m{"url": u}
 	if r.Chance(40) {
 		e["method"] = vf.Pick(r, []string{"GET", "POST"})
@@ -98,6 +106,8 @@ func c17Endpoint(r *vf.Rand, u string) m {
 		e["auth"] = vf.Pick(r, []m{
 			{"type": "basic_auth", "config": m{"user": "u", "password": "p"}},
 			{"type": "api_key", "config": m{"in": "header", "name": "X-Key", "value": "secret"}},
+			{"type": "api_key", "config": m{"in": "cookie", "name": "key", "value": "secret"}},
+			{"type": "api_key", "config": m{"in": "query", "name": "key", "value": "secret"}},
 		})
 	}
 
